@@ -468,7 +468,7 @@ func apiReplay(h apiHist) ([]core.Finding, []string) {
 				for _, o := range append([]string{st.Obj}, typeObjs[st.Obj]...) {
 					if r, ok := compiledWith[o]; ok && r != st.Obj {
 						// an object of this project was compiled before as part of another project
-						class = "api:history-dependent:object-compiled-in-another-project-before:" + st.Op
+						class = "api:history-dependent:object-compiled-in-another-project-before:" + st.Op + ":" + w.content[st.Obj]
 					}
 				}
 				fs = append(fs, core.Finding{Class: class,
